@@ -33,6 +33,10 @@ def run(ctx):
         insts = ctx.rng.sample(insts, cap)
     ev, meta = cc.kernel_events(ctx, PID, insts, compare_spec=False)
     cc.judge(ctx, PID, ["ChildlessFixedKept", "FixedMinPush"], ev, meta, "kernel")
+    # step-by-step binding of the least-squares sweeps (fixed nodes must never move there) and the forced pass
+    lt = [i for i in insts if i["eps"] > 0]
+    lt = ctx.rng.sample(lt, min(len(lt), 150 if q else 3000))
+    cc.loop_traces(ctx, PID, lt, dict(N=3 if q else 4, T=2, iters=[0, 1, 2], eps=[0, 1, 2], max_edges=3 if q else 4))
 
     k = 2 if q else 6
     corpus = inputs.historical(ctx.seed, k=k) + inputs.internal_samples(ctx.seed, k=k) \
